@@ -110,7 +110,7 @@ def suggestion_ctor_sites(prog, reach=None):
 
 
 class Push:
-    __slots__ = ("fn", "body", "bb", "kind", "target", "rank", "ctor", "variant", "item", "rankval", "closure", "outer_bb", "outer_body", "term")
+    __slots__ = ("fn", "body", "bb", "kind", "target", "rank", "ctor", "variant", "item", "rankval", "closure", "outer_bb", "outer_body", "term", "ranks")
 
     def __repr__(self):
         return "Push(%s bb%d %s %s item=%r)" % (self.fn, self.bb, self.kind, self.variant, self.item)
@@ -198,6 +198,7 @@ def push_events(prog, fnkey, ctors=None):
                     if same or len(rets) == 1:
                         p.ctor, p.variant, p.item, p.rankval, p.rank = sub.ctor, sub.variant, sub.item, sub.rankval, sub.rank
                         p.body = cb
+                        p.ranks = [strip_refs(r) for r in rets]         # one per return path of the closure
             out.append(p)
     return out
 
